@@ -682,6 +682,12 @@ func Replay(path string) int {
 		fmt.Fprintln(os.Stderr, "unknown property", rep.Property)
 		return 2
 	}
+	if rep.Idx < 0 {
+		// the violation was found by a parent-side leg of the check (e.g. the native fuzzer or a race report):
+		// it is replayed by re-running the check itself
+		fmt.Printf("replay of %s: parent-side finding (sig %s): re-running the %s check\n", rep.Property, rep.Sig, rep.Tier)
+		return ParentMain(p, rep.Tier)
+	}
 	bin := exe()
 	if p.Race {
 		bin = RaceBin()
